@@ -32,6 +32,8 @@ type vzOracles struct {
 
 	// the chain as the correct nodes finalized it (C03)
 	finalized          map[uint64]string
+	gossipVotes        map[string]map[string]map[uint]bool // node incarnation/h/r/kind -> target -> signers, from every view handed to gossip
+	gossipPos          map[string][2]uint64                // node incarnation -> height/round of the last voting view handed to gossip
 	maxVoting          map[int][3]uint64          // node -> highest voting height/round seen in a view handed to gossip, and the incarnation that showed it
 	honestPH           map[string]bool            // hashes of proposed headers authored by correct validators (C07 completeness)
 	enterPHs           map[string]map[string]bool // node incarnation/h/r -> hashes of the proposed headers in the view the state machine entered the round with
@@ -611,6 +613,16 @@ func (o *vzOracles) onGossipUpdate(nd *vzNode, u tmelink.NetworkViewUpdate) {
 	if u.NilVotedRound != nil {
 		o.checkViewContent(nd, "gossip-nilvoted", u.NilVotedRound)
 	}
+	if o.on["C11"] {
+		for _, v := range []*tmconsensus.VersionedRoundView{u.Committing, u.Voting, u.NextRound, u.NilVotedRound} {
+			if v != nil {
+				o.noteGossipVotes(nd, v)
+			}
+		}
+		if u.Voting != nil {
+			o.checkRoundLeft(nd, u.Voting)
+		}
+	}
 	if u.Committing != nil {
 		o.checkCommittingViewHasCertificate(nd, u.Committing)
 	}
@@ -641,6 +653,95 @@ func (o *vzOracles) checkOwnVote(nd *vzNode, kind string, h uint64, r uint32, ta
 	if !bytes.Equal(want, content) || !pub.Verify(content, sig) {
 		o.violate("C10", "recorded-vote-handed-over-unverifiable/"+kind, "%s (restarted) hands its mirror a %s for %d/%d target %x whose sign content is not that vote's sign bytes or whose signature does not verify: the vote it had persisted before the stop is not present again", nd.ident(), kind, h, r, trunc(target))
 	}
+}
+
+// noteGossipVotes accumulates, per node incarnation, height and round, who has voted what according to
+// everything the gossip strategy has been handed (voting, next-round, committing and nil-voted views).
+func (o *vzOracles) noteGossipVotes(nd *vzNode, v *tmconsensus.VersionedRoundView) {
+	if o.gossipVotes == nil {
+		o.gossipVotes = map[string]map[string]map[uint]bool{}
+	}
+	var bs bitset.BitSet
+	for kind, pm := range map[string]map[string]gcrypto.CommonMessageSignatureProof{"prevote": v.PrevoteProofs, "precommit": v.PrecommitProofs} {
+		for hash, p := range pm {
+			k := fmt.Sprintf("%s/%d/%d/%s", nd.ident(), v.Height, v.Round, kind)
+			if o.gossipVotes[k] == nil {
+				o.gossipVotes[k] = map[string]map[uint]bool{}
+			}
+			if o.gossipVotes[k][hash] == nil {
+				o.gossipVotes[k][hash] = map[uint]bool{}
+			}
+			p.SignatureBitSet(&bs)
+			for u, ok := bs.NextSet(0); ok; u, ok = bs.NextSet(u + 1) {
+				o.gossipVotes[k][hash][u] = true
+			}
+		}
+	}
+}
+
+// checkRoundLeft (C11): when the voting view handed to gossip moves to a later round of the same
+// height, the votes that justify leaving the earlier round must have been handed to gossip by then:
+// more than 2/3 nil precommits in it, or precommits from everybody in it (fully voted, no quorum), or at
+// least 1/3 of the power voting in a later round (a skip). The precommits that end a round reach gossip
+// in the round's last voting view or in the nil-voted-round snapshot.
+func (o *vzOracles) checkRoundLeft(nd *vzNode, cur *tmconsensus.VersionedRoundView) {
+	if o.gossipPos == nil {
+		o.gossipPos = map[string][2]uint64{}
+	}
+	prev, seen := o.gossipPos[nd.ident()]
+	o.gossipPos[nd.ident()] = [2]uint64{cur.Height, uint64(cur.Round)}
+	if !seen || prev[0] != cur.Height || uint64(cur.Round) <= prev[1] {
+		return
+	}
+	vals := cur.ValidatorSet.Validators
+	var total uint64
+	for _, v := range vals {
+		total += v.Power
+	}
+	pow := func(set map[uint]bool) uint64 {
+		var p uint64
+		for i := range set {
+			if int(i) < len(vals) {
+				p += vals[i].Power
+			}
+		}
+		return p
+	}
+	pc := o.gossipVotes[fmt.Sprintf("%s/%d/%d/precommit", nd.ident(), prev[0], prev[1])]
+	all := map[uint]bool{}
+	for _, set := range pc {
+		for i := range set {
+			all[i] = true
+		}
+	}
+	if 3*pow(pc[""]) > 2*total || pow(all) == total {
+		return
+	}
+	for k, m := range o.gossipVotes {
+		var id, kind string
+		var h, r uint64
+		parts := strings.Split(k, "/")
+		if len(parts) != 4 {
+			continue
+		}
+		id, kind = parts[0], parts[3]
+		fmt.Sscan(parts[1], &h)
+		fmt.Sscan(parts[2], &r)
+		_ = kind
+		if id != nd.ident() || h != prev[0] || r <= prev[1] {
+			continue
+		}
+		later := map[uint]bool{}
+		for _, set := range m {
+			for i := range set {
+				later[i] = true
+			}
+		}
+		if 3*pow(later) >= total {
+			return
+		}
+	}
+	o.violate("C11", "round-left-without-justifying-votes/gossip", "%s: the voting view handed to the gossip strategy moved from %d/%d to %d/%d, but nothing it has been handed justifies leaving %d/%d: nil precommits %d and all precommits %d of %d, no later round with a third of the power", nd.ident(), prev[0], prev[1], cur.Height, cur.Round, prev[0], prev[1], pow(pc[""]), pow(all), total)
 }
 
 // appSet is the validator set the application prescribes for height h: the genesis set for the
